@@ -490,12 +490,12 @@ Definition decode (ver : N * N) (bs : list N) : res expr :=
   do w <- decode_lab ver bs; Ok (wt_expr w).
 
 (* DenseMatrix::loads: row, col, the element vector, which must have row * col entries *)
+Definition matrix_schema : list field := [FOne SU32; FOne SU32; FSeq 8 [SNode TBasic]].
 Definition decode_matrix (ver : N * N) (bs : list N) : res (N * N * list wtree) :=
   do '(sw, major, minor, r) <- rd_header bs;
   if negb ((major =? fst ver) && (minor =? snd ver)) then ErrExn EXN_SERIAL
   else
-    match dec_fields (dec_node (S (length bs)) sw) sw (S (length bs))
-                     [FOne SU32; FOne SU32; FSeq 8 [SNode TBasic]] (r, []) with
+    match dec_fields (dec_node (S (length bs)) sw) sw (S (length bs)) matrix_schema (r, []) with
     | Ok ([FV (VN row); FV (VN col); FL rows], _) =>
         if row * col =? N.of_nat (length rows) then Ok (row, col, flat_map row_kids rows)
         else ErrExn EXN_SERIAL
@@ -645,7 +645,6 @@ Fixpoint enc_forest (sw : bool) (ws : list wtree) (seen : list N) : list (list N
       let '(b, s1) := enc_node sw w seen in
       let '(bs, s2) := enc_forest sw r s1 in (b :: bs, s2)
   end.
-Definition matrix_schema : list field := [FOne SU32; FOne SU32; FSeq 8 [SNode TBasic]].
 Definition matrix_vals (rows cols : N) (es : list expr) : list (fval expr) :=
   [FV (VN rows); FV (VN cols); FL (map row1 es)].
 Definition encode_matrix (sw : bool) (ver : N * N) (rows cols : N) (ws : list wtree) : list N :=
